@@ -145,6 +145,8 @@ func runC17Wildcard(c *Ctx) {
 
 func runC17(c *Ctx) {
 	p := c.P
+	// clause shared with C06: every accepted binding is reachable (sibling alternatives are tried)
+	defer c.ImportRules("C06", "C06.2")
 	defer runC17Wildcard(c)
 	ctor := p.MustFunc("NewTranscoder")
 	reach := p.Reach(ctor)
